@@ -22,6 +22,10 @@ type seed struct {
 }
 
 var seeds = []seed{
+	{"NextUnsetBit inverts the word after shifting it", "U4", "bitmapcontainer.go", "\tw := ^bc.bitmap[x] >> (i % 64)\n", "\tw := bc.bitmap[x]\n\tw = w >> (i % 64)\n\tw = ^w\n", "NextUnsetBit|complement of a shifted word"},
+	{"nextAbsentValue inverts the word after shifting it", "U4", "bitmapcontainer.go", "\tw := ^bc.bitmap[x] >> uint(target%64)\n", "\tw := ^(bc.bitmap[x] >> uint(target%64))\n", "nextAbsentValue|complement of a shifted word"},
+	{"Ranges stops bounding the count of ones taken on the shifted word", "U4", "iter.go", "\t\t\t\t\t\tif lo+ones < 64 {\n", "\t\t\t\t\t\tif w&(1<<63) == 0 {\n", "Ranges$1|complement of a shifted word"},
+	{"NextAbsentValue combines the answer with the shifted keyspace", "U5", "roaring.go", "\t\t\treturn int64(combineLoHi32(uint32(nextValue), uint32(containerKey)))\n", "\t\t\treturn int64(combineLoHi32(uint32(nextValue), keyspace))\n", "NextAbsentValue|combineLoHi32"},
 	{"32-bit BSI.ParOr replaces the collected planes when an operand is narrower", "ACC1", "BitSliceIndexing/bsi.go", "\t\t\t// a narrower operand has nothing to contribute to plane i\n\t\t\tif len(x.bA) > i {\n\t\t\t\ta[i] = append(a[i], x.bA[i])\n\t\t\t}\n", "\t\t\tif len(x.bA) > i {\n\t\t\t\ta[i] = append(a[i], x.bA[i])\n\t\t\t} else {\n\t\t\t\ta[i] = []*roaring.Bitmap{roaring.NewBitmap()}\n\t\t\t}\n", "(*BitSliceIndexing.BSI).ParOr|accumulator"},
 	{"64-bit BSI.ParOr ignores the sign plane of a narrower operand", "PC2", "roaring64/bsi64.go", "\t\t\t} else if len(x.bA) > 0 {\n\t\t\t\t// a narrower operand: its sign plane (the last one) extends to every higher plane\n\t\t\t\ta[i] = append(a[i], &x.bA[len(x.bA)-1])\n\t\t\t}\n", "\t\t\t} else if b.runOptimized && len(a[i]) > 0 {\n\t\t\t\ta[i][0].RunOptimize()\n\t\t\t}\n", "ParOr|narrow operand"},
 	{"64-bit BSI.ParOr widens the receiver without sign extension", "PC2", "roaring64/bsi64.go", "\t\tif oldSignPos >= 0 {\n\t\t\tfor i := oldSignPos + 1; i < len(b.bA); i++ {\n\t\t\t\tb.bA[i].Or(&b.bA[oldSignPos])\n\t\t\t}\n\t\t}\n", "\t\t_ = oldSignPos\n", "ParOr|sign-extension"},
